@@ -90,7 +90,7 @@ def gen_history(rng, cap, nops, nkeys, reloc=0.05):
         r = rng.random()
         ki = rng.randrange(len(keys))
         if r < reloc:
-            ops.append('reloc %d' % (4 * rng.randrange(16)))
+            ops.append('reloc %d' % rng.choice([4 * rng.randrange(16), rng.randrange(64), 1, 2, 3]))
         elif r < 0.45:
             v = rand_value(rng)
             if ki in lastval and rng.random() < 0.25:
